@@ -80,7 +80,7 @@ partial def takeForms : Nat → List String → List (Nat × String) × List Str
   | k + 1, i :: s :: rest => let (fs, r) := takeForms k rest; ((i.toNat!, s) :: fs, r)
   | _, rest => ([], rest)
 
-partial def parseFormats (pfx repr : Extra) : Nat → List String → List (List Char × KMsg)
+partial def parseFormats (raw : Bool) (pfx repr : Extra) : Nat → List String → List (List Char × KMsg)
   | 0, _ => []
   | n + 1, name :: msgid :: plural :: msgstr :: k :: rest =>
     let (forms, rest') := takeForms k.toNat! rest
@@ -88,12 +88,14 @@ partial def parseFormats (pfx repr : Extra) : Nat → List String → List (List
     let km : KMsg :=
       if nm == "c".toList then .c (mkMsg Driver.unhexChars pfx repr msgid plural msgstr forms)
       else if nm == "python".toList then .python (mkMsg Driver.unhexChars pfx repr msgid plural msgstr forms)
+      else if nm == "python-brace".toList && raw then .pyBraceStr (mkMsg Driver.unhexChars pfx repr msgid plural msgstr forms)
+      else if nm == "perl-brace".toList && raw then .perlBraceStr (mkMsg Driver.unhexChars pfx repr msgid plural msgstr forms)
       else if nm == "python-brace".toList then
         .pyBrace (mkMsg (parseBrace fun n a => (⟨parsePyBraceArgs a, n⟩ : PyBraceSig)) pfx repr msgid plural msgstr forms)
       else if nm == "perl-brace".toList then
         .perlBrace (mkMsg (parseBrace fun n a => (⟨parsePerlArgs a, n⟩ : PerlBraceSig)) pfx repr msgid plural msgstr forms)
       else .other
-    (nm, km) :: parseFormats pfx repr n rest'
+    (nm, km) :: parseFormats raw pfx repr n rest'
   | _, _ => []
 
 def handle (op : String) (args : List String) : String :=
@@ -101,7 +103,13 @@ def handle (op : String) (args : List String) : String :=
   | "run", tmpl :: enc :: pre :: fuzzy :: rmin :: rmax :: pfx :: repr :: nfmt :: rest =>
     let ctx : Ctx := ⟨tmpl == "1", enc == "1", parsePre (tmpl == "1") pre⟩
     let fl : Flags := ⟨fuzzy == "1", rmin.toNat!, if rmax == "inf" then none else some rmax.toNat!⟩
-    let formats := parseFormats (.safe (Driver.unhexChars pfx)) (.safe (Driver.unhexChars repr)) nfmt.toNat! rest
+    let formats := parseFormats false (.safe (Driver.unhexChars pfx)) (.safe (Driver.unhexChars repr)) nfmt.toNat! rest
+    showResult (checkFormats ctx fl formats)
+  -- `runs`: every string raw (hex code points); python-brace / perl-brace strings are parsed by the models of C13
+  | "runs", tmpl :: enc :: pre :: fuzzy :: rmin :: rmax :: pfx :: repr :: nfmt :: rest =>
+    let ctx : Ctx := ⟨tmpl == "1", enc == "1", parsePre (tmpl == "1") pre⟩
+    let fl : Flags := ⟨fuzzy == "1", rmin.toNat!, if rmax == "inf" then none else some rmax.toNat!⟩
+    let formats := parseFormats true (.safe (Driver.unhexChars pfx)) (.safe (Driver.unhexChars repr)) nfmt.toNat! rest
     showResult (checkFormats ctx fl formats)
   | "lastint", [h, n] =>
     match cParse (Driver.unhexChars h) with
